@@ -141,6 +141,15 @@ func runSweepValues(ta *TestApp, rep *Report, seed uint64, lo, hi int) []string 
 		case 4:
 			fa, ft := g.addr()
 			ta2, tt := g.addr()
+			// bech32 accepts an address in all-upper-case letters as well: the same account under another spelling
+			if strings.HasPrefix(ft, "(AOk") && r.Chance(15) {
+				fa = strings.ToUpper(fa)
+				rep.Count("values.create_va.address_in_upper_case")
+			}
+			if strings.HasPrefix(tt, "(AOk") && r.Chance(15) {
+				ta2 = strings.ToUpper(ta2)
+				rep.Count("values.create_va.address_in_upper_case")
+			}
 			cs, ct := g.coins()
 			st := now.Unix() - r.I64n(10)
 			en := st + []int64{-1 - r.I64n(100), 0, 1 + r.I64n(1000000)}[r.Pick(1, 1, 6)]
